@@ -20,14 +20,16 @@ RULE = ("a known offending token is planted after generated preceding text (prog
         "stack-trace line must carry exactly those numbers.  Also: every position stored in the syntax tree is the start of a "
         "token, and an operator's stored position is the start of that operator's token.  Two fixed families exercise the known "
         "findings K2 (escape / line break inside the literal before a slot) and K4 (literal directly inside 1-3 pairs of "
-        "parentheses, with and without a line break after the `(`): the true position of the name is expected; a report at "
+        "parentheses, with and without a line break after the `(`), further ones K5 (a name directly inside parentheses) and K7 (a line "
+        "break as the offending character or token): the true position of the name is expected; a report at "
         "exactly the position the known mechanism predicts is listed as KNOWN-FINDING, any other as a violation.  Non-trivial = distinct (kind, "
         "template, layout features before the token: tab / CR / comment / multi-byte / multi-line literal / line>1)")
 ASSUMPTIONS = [
     "outside the two known-finding families nothing is planted inside interpolation slots whose literal has an escape or a "
     "line break before the slot (K2) or is directly inside parentheses (K4)",
     "the raising statement of a call chain is not a `return` expression (scheduled repair D7 changes that message's shape)",
-    "a terminator written as a newline reports (next line, column 0); no terminator is planted as the offending token",
+    "a line break as the offending character / unexpected token is planted only in the K7 family (known finding: reported at "
+    "(following line, column 0))",
 ]
 
 M = "«%d»"      # «k» marks the token whose position is expected
@@ -38,6 +40,14 @@ TEMPLATES = [
     ("lex", "qq := 1 «0»& 2\n", False),
     ("lex", "print(\"é\" + \"€\") ; zz := [1, «0»| 2]\n", False),
     ("lex", "qq := \"ok\" «0»!\n", False),
+    # lexical errors inside a literal, on a later line of it and after multi-byte text
+    ("lex", "qq := \"line é\n  second \\«0»q rest\"\n", False),
+    ("lex", "qq := \"a\n\tb\\x4«0»g\"\n", False),
+    ("lex", "qq := \"€\n\n\\x«0»g1\"\n", False),
+    ("lex", "qq := \"a\nb «0»$ c\"\n", False),
+    ("lex", "qq := $\"a\né $«0»a\"\n", False),
+    ("lex", "qq := $\"${1}\n\\«0»q\"\n", False),
+    ("lex", "qq := \"é\\«0»q\"\n", False),
     ("parse", "qq := 1 + «0»)\n", False),
     ("parse", "print(1 «0»2)\n", False),
     ("parse", "qq := [1, 2 «0»3]\n", False),
@@ -202,10 +212,15 @@ def known_families():
             for use in ("xk_q := @", "print(1 + @)", "xk_q := [@]"):
                 tail = use.replace("@", "«9»" + "(" * depth + brk + "«0»nope_qq" + ")" * depth) + "\n"
                 out.append(("K5", f"name-paren{depth}" + ("+gap" if brk else "") + use[:6], tail, 0))
+    # K7: a line break as the offending character / unexpected token is reported at (following line, column 0)
+    for tag, tail in (("escape", "qq := \"ab\\«0»\n cd\"\n"), ("hex1", "qq := \"ab\\x«0»\n9\"\n"), ("hex2", "qq := \"é\\x9«0»\nz\"\n"),
+                      ("interp-start", "qq := $\"ab$«0»\ncd\"\n"), ("unexpected-token", "print(1«0»\n)\n")):
+        out.append(("K7", tag, tail, 0))
     return out
 
 
-FLAG = {"K2": "inside_slot_after_escape", "K4": "slot_in_parenthesised_literal", "K5": "name_directly_in_parentheses"}
+FLAG = {"K2": "inside_slot_after_escape", "K4": "slot_in_parenthesised_literal", "K5": "name_directly_in_parentheses",
+        "K7": "line_break_offender_reported_at_next_line_column_0"}
 
 
 def strip_markers(text):
@@ -364,6 +379,8 @@ def process(ctx, rng, model_ok, bases, n_layouts, state, thorough):
                     continue
                 offs.append(o)
                 exp.append(L.pos_of(src, o))
+            if b.get("family", (None,))[0] == "K7" and exp:
+                kw = (exp[0][0] + 1, 0)
             if offs:
                 cases.append({"kind": b["kind"], "tag": b["tag"], "src": src, "expect": exp, "runs": b["runs"], "how": "original",
                               "before": src[:offs[0]], "family": b.get("family", (None,))[0], "known_wrong": kw})
@@ -408,6 +425,8 @@ def process(ctx, rng, model_ok, bases, n_layouts, state, thorough):
                     continue
                 offs.append(o)
                 exp.append(L.pos_of(s2, o))
+            if b.get("family", (None,))[0] == "K7" and exp:
+                known_wrong = (exp[0][0] + 1, 0)
             cases.append({"kind": b["kind"], "tag": b["tag"], "src": s2, "expect": exp, "runs": b["runs"], "how": how,
                           "before": s2[:offs[0]], "family": b.get("family", (None,))[0], "known_wrong": known_wrong})
     srcs = [c["src"] for c in cases]
